@@ -13,7 +13,10 @@ load-balancing policy yields the plan hosts in a scripted arrangement; every pla
     err_same   error -> RETRY (same host again) -> error -> RETRY_NEXT_HOST
     ok         healthy
 
-and one statement is executed over the plan (or with explicit ``host=`` targeting).  Oracle: the hosts that received
+and one statement is executed over the plan (or with explicit ``host=`` targeting).  A third family runs an idempotent
+statement under a speculative execution policy: virtual time passes the speculative delay while the first host's answer
+is held, so 1-2 further executions are in flight on the next usable hosts; then ONE of them answers with an error and a
+scripted decision (RETRY / RETRY_NEXT_HOST / RETHROW) is applied - the error belongs to the host that sent it.  Oracle: the hosts that received
 the request (node-side trace) are exactly those a reference walk over (plan, states) visits, in that order; no host
 twice without a RETRY decision; the outcome is the first healthy host's row, or NoHostAvailable whose ``errors`` has
 an entry with a reason of the right kind for every host of the plan and which is raised only after the plan iterator
@@ -30,16 +33,21 @@ LEVEL_TEXT = ("Thorough enumerates every sequence of the 8 pool states along pla
               "host targeting, each on a fresh cluster with a seeded arrangement of the hosts, 'missing' variant, protocol version and schedule, "
               "then keeps sampling; quick samples that space. For every case the hosts that received the request, the outcome, the keys and "
               "reason kinds of NoHostAvailable.errors, plan-iterator exhaustion and attempted_hosts are compared with the reference walk. "
-              "Exhaustive over state sequences (when every worker finishes its slice), sampled over arrangements and schedules.")
+              "Plus 100-odd speculative-execution plans (states missing/shut/noconn/ok, >= 2 healthy hosts) with a seeded choice of attempts, "
+              "failing execution and decision. Exhaustive over state sequences (when every worker finishes its slice), sampled over "
+              "arrangements, schedules and the speculative parameters.")
 LEVEL_NOTE = ("Trusted base: sim/world.py, sim/node.py, spec/frames.py, the reference walk here. 'shut', 'noconn' are injected by calling "
               "pool.shutdown() / clearing pool._connection from the harness; 'busy' by lowering max_in_flight on the harness connection class "
               "and holding requests; everything else happens through the wire. One statement per pool-state setup, then one more explicit-host "
-              "statement against the resulting state. No client timeouts (timeout=None), no speculative execution.")
+              "statement against the resulting state. No client timeouts (timeout=None); speculative execution only in the 'spec' family, "
+              "where time is advanced explicitly and the other in-flight executions never answer.")
 QUICK_WORKERS = 4
 WORKERS = 14
 
 STATES = ['missing', 'shut', 'noconn', 'busy', 'sendfail', 'err_next', 'err_same', 'ok']
 CONTACT = '127.0.0.9'
+SPEC_STATES = ['missing', 'shut', 'noconn', 'ok']      # no 'busy' (its 2 s borrow wait would block the timer thread), no scripted errors
+SPEC_DELAY = 0.2
 
 
 def all_cases():
@@ -49,6 +57,11 @@ def all_cases():
             cases.append(('plan', seq))
     for s in STATES:
         cases.append(('host', (s,)))
+    # speculative family: >= 2 healthy hosts so that a speculative execution is in flight when an earlier host answers with an error
+    for k in range(2, 5):
+        for seq in itertools.product(SPEC_STATES, repeat=k):
+            if seq.count('ok') >= 2:
+                cases.append(('spec', seq))
     return cases
 
 
@@ -145,8 +158,13 @@ def run_case(seed, mode, states):
         return uidc[0]
 
     with env:
+        spec_attempts = rng.choice([1, 1, 2])
+        prof = ExecutionProfile(load_balancing_policy=lbp)
+        if mode == 'spec':
+            from cassandra.policies import ConstantSpeculativeExecutionPolicy
+            prof = ExecutionProfile(load_balancing_policy=lbp, speculative_execution_policy=ConstantSpeculativeExecutionPolicy(SPEC_DELAY, spec_attempts))
         cluster = env.cluster(contact_points=[CONTACT], protocol_version=proto, reconnection_policy=ConstantReconnectionPolicy(5000.0),
-                              execution_profiles={EXEC_PROFILE_DEFAULT: ExecutionProfile(load_balancing_policy=lbp)})
+                              execution_profiles={EXEC_PROFILE_DEFAULT: prof})
         session = C.connect_deterministically(env, cluster, ch)
         rec = Recorder(env.world)
         # ---- put the pools into their states
@@ -313,8 +331,122 @@ def run_case(seed, mode, states):
                 infos.append(info)
             return v
 
+        def spec_statement():
+            """idempotent statement with speculative executions in flight; then ONE of the executions is answered with an error and the
+            scripted decision is applied.  Reference: the error belongs to the host that sent it (same-host retry goes there, it is that
+            host NoHostAvailable.errors lists); hosts that never answered carry no server error."""
+            uid = next_uid()
+            usable = [h for h in order if st_of[h] == 'ok']
+            nspec = min(spec_attempts, len(usable) - 1)
+            inflight = usable[:1 + nspec]
+            e_idx = rng.choice(list(range(nspec)) * 3 + [nspec])          # mostly NOT the host queried last
+            errored = inflight[e_idx]
+            decision = rng.choice([C.RETRY, C.RETRY, C.RETRY_NEXT_HOST, C.RETRY_NEXT_HOST, C.RETHROW])
+            err = errgen.make(rng.choice(C.SERVER_KINDS))
+            a = err['action']
+            acts = [('hold-error', a[1], a[2]) if i == e_idx else 'silent' for i in range(len(inflight))] + ['rows']
+            plan.set(uid, acts)
+            pol = C.make_oracle_retry_policy(script=[(decision, None)])
+            stm = SimpleStatement(uid_query(uid), retry_policy=pol, consistency_level=rng.choice(C.CLS), is_idempotent=True)
+            arrivals = list(inflight)
+            reasons = None
+            if decision == C.RETRY:
+                arrivals.append(errored)
+                outcome = ('ok', errored)
+            elif decision == C.RETRY_NEXT_HOST:
+                rest = usable[1 + nspec:]
+                if rest:
+                    arrivals.append(rest[0])
+                    outcome = ('ok', rest[0])
+                else:
+                    outcome = ('nohost',)
+                    reasons = dict((h, st_of[h]) for h in order if st_of[h] != 'ok')
+                    reasons[errored] = 'err'
+            else:
+                outcome = ('rethrow',)
+            m_seen = len(plan.seen)
+            with env.world.inspect():
+                lbp.order = list(order)
+                fut = rec.execute_async(session, uid, statement=stm, timeout=None)
+            env.world.settle(advance=False)
+            env.world.advance_to(env.world.now + SPEC_DELAY * (spec_attempts + 1) + 0.05)
+            env.world.settle(advance=False)
+            with env.world.inspect():
+                during = [s_[0] for s_ in plan.seen[m_seen:] if s_[3] == uid]
+                early_outs = len(rec.outcomes(uid))
+            for hld in list(env.net.held):
+                if not hld.done:
+                    hld.release()
+            env.world.settle(advance=False)
+            lbp.order = None
+            with env.world.inspect():
+                seen = [s_[0] for s_ in plan.seen[m_seen:] if s_[3] == uid]
+                outs = rec.outcomes(uid)
+                info = dict(seed=seed, statement='main', proto=proto, mode='spec', plan=list(order), states=list(states), missing_how=dict(missing_how),
+                            target=None, speculative_attempts=spec_attempts, in_flight_when_error_arrived=inflight, host_that_answered_with_error=errored,
+                            decision=C.DECISION_NAMES[decision], hosts_that_received=seen, expected_hosts=arrivals, expected_outcome=outcome,
+                            outcome=[(o[0], repr(o[3])[:300]) for o in outs], decisions=[C.DECISION_NAMES[l['decision'][0]] for l in pol.log], errors_answered=1)
+                v = []
+                if during != inflight or early_outs:
+                    v.append(('speculative-executions-not-on-next-plan-hosts', 'while no host had answered: requests at %r (outcomes %d), expected %r' % (during, early_outs, inflight)))
+                elif seen != arrivals:
+                    extra = seen[len(inflight):]
+                    if decision == C.RETRY and extra and extra[0] != errored:
+                        v.append(('same-host-retry-sent-to-a-host-that-did-not-fail',
+                                  '%s answered with an error and RETRY was decided, but the request was sent again to %r (trace %r)' % (errored, extra, seen)))
+                    elif len(seen) > len(arrivals) and seen[len(arrivals)] in seen[:len(arrivals)]:
+                        v.append(('host-tried-again-without-a-retry-decision', 'hosts that received the request %r, reference %r' % (seen, arrivals)))
+                    else:
+                        v.append(('hosts-not-tried-in-plan-order', 'hosts that received the request %r, reference %r' % (seen, arrivals)))
+                elif sorted(h.address for h in fut.attempted_hosts) != sorted(seen):
+                    v.append(('attempted-hosts-differs-from-hosts-that-received-the-request', 'attempted_hosts %r, node-side %r' % (
+                        [h.address for h in fut.attempted_hosts], seen)))
+                elif not outs:
+                    v.append(('no-outcome-delivered', 'the statement never completed; expected %r' % (outcome,)))
+                elif len(outs) != 1:
+                    v.append(('completed-more-than-once', '%d completions' % len(outs)))
+                elif outcome[0] == 'ok':
+                    rows = list(outs[0][3] or []) if outs[0][0] == 'cb' else []
+                    if outs[0][0] != 'cb' or echoed_uid(rows) != uid or rows[0].node != outcome[1]:
+                        v.append(('result-not-from-the-host-the-decision-led-to', 'expected the row of %s, got %r %r' % (outcome[1], outs[0][0], outs[0][3])))
+                elif outcome[0] == 'rethrow':
+                    if outs[0][0] != 'eb' or not C.rethrown_matches(err, outs[0][3]):
+                        v.append(('rethrow-decision-not-the-servers-error', 'RETHROW decided, outcome %r %r' % (outs[0][0], outs[0][3])))
+                else:
+                    o = outs[0]
+                    if o[0] != 'eb' or not isinstance(o[3], NoHostAvailable):
+                        v.append(('plan-exhaustion-not-reported', 'expected NoHostAvailable, got %r %r' % (o[0], o[3])))
+                    else:
+                        got = dict((h.address, e_) for h, e_ in o[3].errors.items())
+                        silent_hosts = [h for h in inflight if h != errored]
+                        missing_keys = sorted(set(reasons) - set(got))
+                        stray = sorted(set(got) - set(reasons) - set(silent_hosts))
+                        blamed = [h for h in silent_hosts if h in got and (hasattr(got[h], 'summary_msg') or
+                                                                      type(got[h]).__name__ in ('ReadTimeout', 'WriteTimeout', 'Unavailable'))]
+                        if errored not in got:
+                            v.append(('no-host-available-omits-host-that-answered-with-error',
+                                      '%s answered with the error but errors lists %r' % (errored, sorted(got))))
+                        elif blamed:
+                            v.append(('server-error-attributed-to-host-that-never-answered', 'hosts %r never answered, yet errors has %r' % (
+                                blamed, [repr(got[h])[:80] for h in blamed])))
+                        elif missing_keys or stray:
+                            v.append(('no-host-available-errors-incomplete', 'errors lists %r, hosts skipped/failed %r' % (sorted(got), sorted(reasons))))
+                        else:
+                            for h_, kind in reasons.items():
+                                if not reason_kind_ok(kind, got[h_], err if kind == 'err' else None):
+                                    v.append(('no-host-available-reason-wrong-kind', 'host %s was %s, recorded reason %r' % (h_, kind, got[h_])))
+                                    break
+                            if not v and not lbp.plans[-1]['exhausted']:
+                                v.append(('no-host-available-before-plan-exhausted', 'NoHostAvailable although the plan iterator was not exhausted'))
+                for mech, what in v:
+                    viol.append((mech, what, info))
+                infos.append(info)
+            return v
+
         if mode == 'plan':
             v = one_statement('main', None, order, list(states))
+        elif mode == 'spec':
+            v = spec_statement()
         else:
             v = one_statement('main', order[0], order, list(states))
         # ---- one more statement with explicit host targeting against the state the first one left behind
@@ -377,7 +509,8 @@ def run(ctx):
         todo = []
         r = random.Random(base + (ctx.worker or 0))
         for _ in range(4000):
-            key = r.choices([('plan', 0), ('plan', 1), ('plan', 2), ('plan', 3), ('plan', 4), ('host', 1)], [1, 8, 20, 30, 40, 12])[0]
+            key = r.choices([('plan', 0), ('plan', 1), ('plan', 2), ('plan', 3), ('plan', 4), ('host', 1), ('spec', 2), ('spec', 3), ('spec', 4)],
+                            [1, 8, 20, 30, 40, 12, 4, 8, 10])[0]
             todo.append((r.randrange(1 << 30), r.choice(by_len[key])))
     else:
         w, nw = (ctx.worker or 0), max(1, ctx.nworkers)
@@ -426,6 +559,9 @@ def run(ctx):
             ctx.count("errors_answered_by_nodes", q.get('errors_answered', 0))
             if q['mode'] == 'host':
                 ctx.count("explicit_host_statements")
+            if q['mode'] == 'spec':
+                ctx.count("speculative_statements_decision_" + q['decision'])
+                ctx.count("speculative_statements")
             if q['outcome'] and q['outcome'][0][0] == 'eb':
                 ctx.count("no_host_available_outcomes_checked")
             for s in q['states']:
@@ -443,4 +579,4 @@ def run(ctx):
     ctx.floor_distinct = 120 if ctx.quick else 2000      # the complete enumeration has 4689; ctx.exhaustive says whether it was finished
     ctx.floor_counters = {"statements_judged": 200, "hosts_that_received_compared": 200, "no_host_available_outcomes_checked": 60,
                           "explicit_host_statements": 60, "state_busy": 30, "state_sendfail": 30, "state_missing": 30, "state_shut": 30,
-                          "state_noconn": 30, "state_err_next": 30, "state_err_same": 30}
+                          "state_noconn": 30, "state_err_next": 30, "state_err_same": 30, "speculative_statements": 25}
